@@ -34,6 +34,11 @@ def shards(tier, seed):
     return out
 
 
+# words pandas reads as a missing value by default; hed keeps that default when it reads a TSV file
+PANDAS_NA_WORDS = {"#N/A", "#N/A N/A", "#NA", "-1.#IND", "-1.#QNAN", "-NaN", "-nan", "1.#IND", "1.#QNAN", "<NA>", "N/A", "NA",
+                   "NULL", "NaN", "None", "nan", "null"}
+
+
 def frame_snapshot(df):
     return (list(df.columns), [str(t) for t in df.dtypes], df.astype(object).where(df.notna(), None).values.tolist())
 
@@ -79,6 +84,10 @@ def check_case(case, rec):
             rec.mon("row-with-reference")
         empty_value = any(b["kinds"].get(c) == "value" and cell[c] == "" for c in cols)
         key = "value-empty-cell" if empty_value else ("ref-empty-replacement" if ref_missing else None)
+        na_word = form == "tsv" and any(str(cell[c]).strip() in PANDAS_NA_WORDS for c in cols
+                                        if c == "HED" or b["kinds"].get(c) in ("categorical", "value"))
+        if na_word:
+            key = "tsv-cell-pandas-na-word"
         rec.mon("row-equals-model")
         if got != want:
             rec.violation("assembled row differs from the annotation the sidecar prescribes", dict(case, row=i, observed=s1[i]),
@@ -99,7 +108,8 @@ def check_case(case, rec):
             if got_c != want_c:
                 rec.violation("assemble(skip_curly_braces=True) cell differs from the column's piece",
                               dict(case, row=i, column=c, observed=got_cell),
-                              key="value-empty-cell" if (b["kinds"].get(c) == "value" and cell.get(c) == "") else None)
+                              key="tsv-cell-pandas-na-word" if na_word else
+                              "value-empty-cell" if (b["kinds"].get(c) == "value" and cell.get(c) == "") else None)
         rec.mon("skip-curly-view")
     rec.mon("repeatable")
     if s1 != s2 or s1 != s3:
@@ -156,7 +166,10 @@ def check_sheet(case, rec):
         if hedparse.canon_text(s1[i]) != want:
             rec.violation("assembled spreadsheet row differs from tag columns plus prefixed value columns",
                           dict(case, row=i, observed=s1[i]),
-                          key="value-empty-cell" if any(cell[c] == "" for c in case["prefixes"]) else None)
+                          key="tsv-cell-pandas-na-word" if (case["form"] == "tsv" and
+                                                              any(str(cell[c]).strip() in PANDAS_NA_WORDS
+                                                                  for c in case["tag_columns"] + list(case["prefixes"]))) else
+                          "value-empty-cell" if any(cell[c] == "" for c in case["prefixes"]) else None)
         if s1[i] and not hedparse.delimiter_well_formed(s1[i]):
             rec.violation("assembled spreadsheet row is not delimiter-well-formed", dict(case, row=i, observed=s1[i]))
     if s1 != s2:
@@ -209,6 +222,13 @@ def run_shard(shard, rec):
     rng = rec.rng
     rng.seed(f"c06-{shard['stream']}-{rng.random()}")
     gen = annot.AnnotGen(schema_xml.load(shard["version"]), rng)
+    if shard["stream"] == 0:
+        # directed probe of a listed finding: a HED cell that is exactly the schema tag 'None'
+        b = dict(sidecar={}, kinds={}, columns=["onset", "duration", "HED"],
+                 rows=[["0.5", "1", "None"], ["1.5", "1", "(None, Event)"], ["2.5", "n/a", "Event"]])
+        for form in ("frame", "tsv"):
+            rec.case((json.dumps(b, sort_keys=True), form), False)
+            check_case(dict(bundle=b, form=form), rec)
     for k in range(shard["n"]):
         try:
             b = tables.gen_bundle(gen, rng, valid_cells=False)
